@@ -3,6 +3,7 @@ package vc
 import (
 	"go/types"
 	"sort"
+	"strings"
 
 	"golang.org/x/tools/go/ssa"
 )
@@ -231,8 +232,37 @@ func (e *Engine) summary(fn *ssa.Function) *modSummary {
 					if fc := e.funcC[callee]; fc != nil && fc.Pure {
 						continue
 					}
-					if fc := e.externs[callee.String()]; fc != nil && fc.Pure {
-						continue
+					if fc := e.externs[callee.String()]; fc != nil {
+						if fc.Pure {
+							continue
+						}
+						if fc.HasModifies {
+							// modifies lists of slices: x[*]
+							okAll := true
+							for _, mi := range fc.Modifies {
+								if !strings.HasSuffix(mi, "[*]") {
+									okAll = false
+									continue
+								}
+								pname := strings.TrimSuffix(mi, "[*]")
+								found := false
+								for pi, p := range callee.Params {
+									if p.Name() == pname && pi < len(c.Args) {
+										if sl, isSl := p.Type().Underlying().(*types.Slice); isSl {
+											es := f.sortOf(sl.Elem())
+											res.comps[compMem(es)] = arr2(es)
+											found = true
+										}
+									}
+								}
+								if !found {
+									okAll = false
+								}
+							}
+							if okAll {
+								continue
+							}
+						}
 					}
 					if callee.Pkg != nil && e.isRepoPkg(callee.Pkg.Pkg) {
 						cs := e.summary(callee)
@@ -338,7 +368,7 @@ func (f *frame) havocComps(st *bstate, comps map[string]string) {
 	var keeps []keep
 	for fr := f; fr != nil; fr = fr.caller {
 		for _, la := range fr.locals {
-			if la.escaped {
+			if !la.isPrivate(st) {
 				continue
 			}
 			for _, c := range f.objCells(la.ty, la.ref.T) {
